@@ -120,6 +120,7 @@ package heap
 //@   ghostinit h.indexChanged.f := lambda j int :: j
 //@   ghostinit h.indexChanged.g := lambda j int :: j
 //@   ensures wfH(h) && len(h.a) == old(len(h.a)) + 1 && h.gen > old(h.gen) && h.lessFn == old(h.lessFn) && h.indexChanged == old(h.indexChanged)
+//@   ensures arr(h.a) == old(arr(h.a)) || fresh(h.a)
 //@   ensures mapsTo(h) && h.indexChanged.bn == old(len(h.a)) + 1 && h.indexChanged.gone == -1 && h.indexChanged.base[old(len(h.a))] == item
 //@   ensures forall j int {h.indexChanged.base[j]} :: 0 <= j && j < old(len(h.a)) ==> h.indexChanged.base[j] == old(h.a[j])
 //@   ensures C15: tiH(h)
@@ -139,6 +140,7 @@ package heap
 //@   before call percolateDown[0]: ghost h.indexChanged.g := store(h.indexChanged.g, old(len(h.a)) - 1, 0)
 //@   before call percolateDown[0]: ghost h.indexChanged.lo := 0
 //@   ensures wfH(h) && len(h.a) == old(len(h.a)) - 1 && h.gen > old(h.gen) && result == old(h.a[0]) && h.lessFn == old(h.lessFn) && h.indexChanged == old(h.indexChanged)
+//@   ensures arr(h.a) == old(arr(h.a))
 //@   ensures mapsTo(h) && h.indexChanged.bn == old(len(h.a)) && h.indexChanged.gone == 0
 //@   ensures forall j int {h.indexChanged.base[j]} :: 0 <= j && j < old(len(h.a)) ==> h.indexChanged.base[j] == old(h.a[j])
 //@   ensures forall k int {h.a[k]} :: 0 <= k && k < len(h.a) ==> !h.lessFn(h.a[k], result)
@@ -198,10 +200,10 @@ package heap
 //@   loop 1: invariant h.a == initial && h.lessFn == less && h.indexChanged == indexChanged && h.gen == 0 && heapOK(h) && mapsTo(h) && !indexChanged.tracks
 //@   loop 1: invariant old(distinctKeys(initial)) ==> distinctKeys(h.a)
 //@   loop 1: invariant old(distinctKeys(initial)) ==> (forall k int {h.a[k]} :: 0 <= k && k < idx1 ==> indexChanged.N[keyOf(h.a[k])] == k)
-//@   ghost indexChanged.tracks := old(distinctKeys(initial))
+//@   ghost indexChanged.tracks := false
 //@   ensures result.a == initial && result.lessFn == less && result.indexChanged == indexChanged && result.gen == 0
-//@   ensures heapOK(result) && synced(result) && mapsTo(result) && indexChanged.bn == len(initial) && indexChanged.gone == -1
-//@   ensures indexChanged.tracks == old(distinctKeys(initial))
+//@   ensures heapOK(result) && mapsTo(result) && indexChanged.bn == len(initial) && indexChanged.gone == -1
+//@   ensures !indexChanged.tracks && (old(distinctKeys(initial)) ==> syncedAll(result))
 //@   ensures forall j int {indexChanged.base[j]} :: 0 <= j && j < len(initial) ==> indexChanged.base[j] == old(initial[j])
 
 //@ func Heap.Grow
